@@ -147,10 +147,10 @@ PROPS['C01'] = dict(
     domains=['rt', 'unm', 'build'],
     no_model={'rt': True},
     n=dict(quick=dict(rt=2500, unm=800, build=600), thorough=dict(rt=120000, unm=40000, build=30000)),
-    theorems=[('Properties.C01', ['C01_header_section_round_trips', 'C01_block_framing_ignores_block_content', 'C01_marker_is_accepted_and_consumed', 'C01_marshal_layout', 'C01_marshal_then_parse_returns_the_record', 'C01_strictly_built_header_is_accepted_under_every_policy'])],
+    theorems=[('Properties.C01', ['C01_header_section_round_trips', 'C01_block_framing_ignores_block_content', 'C01_marker_is_accepted_and_consumed', 'C01_marshal_layout', 'C01_marshal_then_parse_returns_the_record', 'C01_strictly_built_header_is_accepted_under_every_policy', 'C01_strictly_built_record_round_trips_without_digests'])],
     kinds={'panic', 'roundtrip-lossy', 'remarshal-differs', 'policy-incoherent', 'trimmed-value'},
     rule='rt: 1-5 records accepted by the strict builder (all record types incl. unknown, both versions, generic/HTTP/warc-fields blocks with delimiter-imitating content, unknown fields with odd but clean values), built under a random policy, marshaled, concatenated plain or as gzip members, read back through ONE WarcFileReader under another policy (2/3 strict) with the same add/repair flags, compared (version, type, ordered fields, block) and marshaled again; spill thresholds around the block size; unm/build: model correspondence. distinct = distinct implementation observations',
-    level_text='PARTIAL proof. Proved in Coq (C01_marshal_then_parse_returns_the_record): for every record that is valid for the reader (version 1.0/1.1, well-formed header fields that validate with no finding, truthful Content-Length, block that parses to itself, digests absent or valid), every following byte sequence and stream tail, under every policy setting, parsing the marshalled form returns exactly that record (version, type, ordered fields, block), no finding, and leaves exactly the following bytes - so blocks imitating CRLFCRLF or WARC/1.1 cannot confuse framing. Stage theorems: header section round trip for unbounded field lists, framing, marker, layout. Builder side of the link, header stage (C01_strictly_built_header_is_accepted_under_every_policy): the final header of every record the strict builder returns - the length and digest fields it added included - is accepted with no finding by header validation under every pair of spec / unknown-type policies and resolves to the same known record type (the attempt to state this showed that a record type given only as a WARC-Type header was not adopted by Build: defect repaired, fix 71854e8). Not mechanised: that the block and digest stages of every record Build accepts are valid in that sense for every reader policy (established stage by stage in C02, C03), re-marshalling equality, and the gzip container; these are evaluated on the implementation by the executable statement (build, marshal plain or gzip, parse under another policy, compare, marshal again).',
+    level_text='PARTIAL proof. Proved in Coq (C01_marshal_then_parse_returns_the_record): for every record that is valid for the reader (version 1.0/1.1, well-formed header fields that validate with no finding, truthful Content-Length, block that parses to itself, digests absent or valid), every following byte sequence and stream tail, under every policy setting, parsing the marshalled form returns exactly that record (version, type, ordered fields, block), no finding, and leaves exactly the following bytes - so blocks imitating CRLFCRLF or WARC/1.1 cannot confuse framing. Stage theorems: header section round trip for unbounded field lists, framing, marker, layout. Builder side of the link, header stage (C01_strictly_built_header_is_accepted_under_every_policy): the final header of every record the strict builder returns - the length and digest fields it added included - is accepted with no finding by header validation under every pair of spec / unknown-type policies and resolves to the same known record type (the attempt to state this showed that a record type given only as a WARC-Type header was not adopted by Build: defect repaired, fix 71854e8). End to end for records without digest fields (C01_strictly_built_record_round_trips_without_digests): with the add-missing-digest option off on both sides, whatever the strict builder returns for clean header fields and ANY content is read back from its serialization as exactly that record - version, type, ordered fields, block - with no error and no finding under EVERY reader policy, followed by anything (side condition on the one remaining axis: the builder rejects block problems or the reader ignores them); the warc-fields case rests on: a header section accepted under fail parses to the same fields under every policy. Not mechanised: the digest stage when digest fields are present (it needs the text codecs of the hash oracles to round-trip; established on the model level in C02/C03 and evaluated here), re-marshalling equality, and the gzip container; these are evaluated on the implementation by the executable statement (build, marshal plain or gzip, parse under another policy, compare, marshal again).',
     level_note="Trusted: Coq kernel, extraction (ExtrOcamlBasic), harness and generators. Oracles: hash functions (Python hashlib), base32/base64 decoders, mime.WordDecoder, net/http header parsing, whatwg-url, net.ParseIP, time.Parse, Unicode case mapping; klauspost gzip (a member is its payload; a cut member yields a payload prefix then io.ErrUnexpectedEOF). bufio.Reader is remaining bytes + a persistent tail condition. Findings are compared by coarse kind derived from error texts. Reading of the text: the reader runs with the builder's add-missing/repair flags; values with edge blanks are a recorded known finding (trimmed), values with encoded-words are outside the property.",
     assumptions=[],
 )
@@ -191,17 +191,17 @@ PROPS['C07'] = dict(
 PROPS['C08'] = dict(
     id='C08', domains=['coh', 'hparse', 'validate', 'unm', 'build'], no_model={'coh': True},
     n=dict(quick=dict(coh=1500, hparse=800, validate=300, unm=600, build=600), thorough=dict(coh=60000, hparse=30000, validate=20000, unm=20000, build=20000)),
-    theorems=[('Properties.C08', ['C08_header_fail_is_first_warn_finding', 'C08_header_ignore_no_findings', 'C08_header_warn_never_errors', 'C08_digest_verification_coherent', 'C08_no_axis_at_warn_parser_adds_no_finding', 'C08_no_axis_at_warn_builder_adds_no_finding', 'C08_uniform_ignore_and_uniform_fail_are_covered', 'C08_parser_fail_errs_exactly_when_warn_finds_or_errs', 'C08_builder_fail_errs_exactly_when_warn_finds_or_errs', 'C08_header_parser_rejection_is_monotone', 'C08_header_validation_rejection_is_monotone', 'C08_header_parser_strict_acceptance_is_policy_independent', 'C08_axis_monotonicity_refuted_by_block_repair'])],
+    theorems=[('Properties.C08', ['C08_header_fail_is_first_warn_finding', 'C08_header_ignore_no_findings', 'C08_header_warn_never_errors', 'C08_digest_verification_coherent', 'C08_no_axis_at_warn_parser_adds_no_finding', 'C08_no_axis_at_warn_builder_adds_no_finding', 'C08_uniform_ignore_and_uniform_fail_are_covered', 'C08_parser_fail_errs_exactly_when_warn_finds_or_errs', 'C08_builder_fail_errs_exactly_when_warn_finds_or_errs', 'C08_header_parser_rejection_is_monotone', 'C08_header_validation_rejection_is_monotone', 'C08_header_parser_strict_acceptance_is_policy_independent', 'C08_axis_monotonicity_refuted_by_block_repair', 'C08_parser_rejection_is_monotone', 'C08_builder_rejection_is_monotone'])],
     kinds={'panic', 'policy-incoherent', 'wfblock-repair-nonmonotone'},
     rule='coh: mutated record streams (parser, plain/gzip) and builder inputs with declared lengths/digests; each run under uniform ignore / warn / fail (no findings under ignore; nil error under fail implies empty validation; fail errs iff warn has a finding or error; rejection monotone) and axis by axis (syntax, spec, unknown type, block) against the other axes as drawn; hparse/validate/unm/build: model correspondence under all policies',
-    level_text='Proved in Coq for the WHOLE parser pipeline on plain streams (record-start search, version line, header parser, header validation, parseBlock, length/digest verification, end-of-record marker) and the whole builder, for every input: (sentences 1-2) with no axis at warn - uniform ignore, uniform fail, every mix - no stage adds a finding, so under ignore no finding is produced and under fail a nil error comes with an empty validation; (sentence 3) with all axes at one level, fail returns an error exactly when warn produces at least one finding or an error - the two runs proceed in lock step until the first finding, stage by stage. The last sentence (axis-by-axis monotonicity) is proved for two stages - the header parser along the syntax axis (record headers and warc-fields blocks) and header validation along the spec and unknown-type axes (rejected under a setting, rejected under every setting at least as strict) - and REFUTED for the whole parser when the warc-fields block repair is on (C08_axis_monotonicity_refuted_by_block_repair, a witness the proof attempt produced and the implementation reproduces: known finding wfblock-repair-nonmonotone). PARTIAL: the last sentence for the remaining stages with that repair off and the gzip container are not mechanised; they are evaluated on the implementation, uniformly and axis by axis, for every generated input (including repair-sensitive records that declare the digest of their repaired block), the stage models being tied by the correspondence run. The defect that folded header lines ignored the policy was found here and repaired',
+    level_text='Proved in Coq for the WHOLE parser pipeline on plain streams (record-start search, version line, header parser, header validation, parseBlock, length/digest verification, end-of-record marker) and the whole builder, for every input and option setting - all four sentences: (1-2) with no axis at warn - uniform ignore, uniform fail, every mix - no stage adds a finding, so under ignore no finding is produced and under fail a nil error comes with an empty validation; (3) with all axes at one level, fail returns an error exactly when warn produces at least one finding or an error - the two runs proceed in lock step until the first finding, stage by stage; (4) rejection is monotone along all four axes at once (rejected under a setting, rejected under every setting at least as strict on each axis, in particular axis by axis) whenever the syntax level is the same in both settings or the warc-fields block repair is off (C08_parser_rejection_is_monotone, C08_builder_rejection_is_monotone: every stage is blind to the findings it is handed, so the pipeline is a function of the erased values on which each policy-dependent stage is monotone), and it is REFUTED in the remaining case (C08_axis_monotonicity_refuted_by_block_repair: the block is only repaired when the syntax policy makes its problems visible, so a record that declares the digest of its repaired block is rejected under syntax=ignore, accepted under warn, rejected under fail) - a witness the proof attempt produced and the implementation reproduces (known finding wfblock-repair-nonmonotone). PARTIAL only in that the gzip container is not mechanised; it is evaluated on the implementation, uniformly and axis by axis, for every generated input (including repair-sensitive records that declare the digest of their repaired block), the stage models being tied by the correspondence run. The defect that folded header lines ignored the policy was found here and repaired',
     level_note='Trusted: Coq kernel, extraction (ExtrOcamlBasic), harness and generators. Oracles: hash functions (Python hashlib), base32/base64 decoders, mime.WordDecoder, net/http header parsing, whatwg-url, net.ParseIP, time.Parse, Unicode case mapping; klauspost gzip (a member is its payload; a cut member yields a payload prefix then io.ErrUnexpectedEOF). bufio.Reader is remaining bytes + a persistent tail condition. Findings are compared by coarse kind derived from error texts. ',
     assumptions=[],
 )
 
 PROPS['C04'] = dict(
-    id='C04', domains=['writer', 'unm'],
-    n=dict(quick=dict(writer=500, unm=1500), thorough=dict(writer=30000, unm=60000)),
+    id='C04', domains=['writer', 'unm', 'wcont'], no_model={'wcont': True},
+    n=dict(quick=dict(writer=500, unm=1500, wcont=150), thorough=dict(writer=30000, unm=60000, wcont=5000)),
     theorems=[('Properties.C04', ['C04_offsets_are_positions', 'C04_write_appends_at_the_reported_offset'])],
     kinds={'panic', 'wrong-position', 'eof-offset', 'unreadable-file', 'reopen-mismatch', 'delivery-dependent'},
     rule='writer: 1 worker, 2-7 records of sizes around the limit, limits from half a record to unlimited, compression on/off, ratios 0.25-2, warcinfo on/off, flush on/off, 1-6 operations (single writes, batches of 2-3, the same record object written again, Rotate), a repeating name generator with empty in-progress suffix; every response is checked by opening a fresh reader at (file, offset) and by a sequential read (same offsets, EOF offset = file length); unm: for every cleanly read record of every generated stream (junk between records, plain and gzip) a fresh reader opened at the reported offset must return the same record',
@@ -210,8 +210,8 @@ PROPS['C04'] = dict(
     assumptions=[],
 )
 PROPS['C13'] = dict(
-    id='C13', domains=['writer'],
-    n=dict(quick=dict(writer=600), thorough=dict(writer=30000)),
+    id='C13', domains=['writer', 'wcont'], no_model={'wcont': True},
+    n=dict(quick=dict(writer=600, wcont=150), thorough=dict(writer=30000, wcont=5000)),
     theorems=[('Properties.C13', ['C13_every_file_begins_with_its_warcinfo', 'C13_fit_rule', 'C13_names_and_in_progress_state', 'C13_callback_arguments'])],
     kinds={'panic', 'warcinfo-rule', 'fit-rule', 'bad-name', 'open-file-left', 'callback-args', 'unreadable-file'},
     rule='writer domain (see C04): files are read back sequentially: first record is the warcinfo naming the file, exactly one, all others carry its id; no record appended beyond the limit to a file that already holds data (scaled declared length); names unique, compression suffix iff compressed, no in-progress suffix after Close; callback gets final name, true size, warcinfo id',
